@@ -19,7 +19,8 @@ RULE = ("model graph: every reachable state and every transition (state, thread)
         "thread waited or was resumed after another one ran); `distinct_nontrivial` = distinct cases that are not trivial; "
         "search: exhaustive DFS with state hashing on the real class over the same thread sets plus reader-only sets with "
         "nested read holds (n; n,r; n,n; nr,n,r) (quick: up to 3 readers + 2 "
-        "writers one round each and 2+1 / 1+2 with two rounds; thorough: 3 readers + 2 writers with 1-2 rounds each).  Budgets "
+        "writers one round each, 2+1 / 1+2 with two rounds, and a thread that reads and then writes next to one or two readers "
+        "(rw,r; rw,r,r); thorough: 3 readers + 2 writers with 1-2 rounds each).  Budgets "
         "are COUNTS derived from the tier (transitions executed on the real class per thread set: quick 150000, thorough "
         "700000), never wall clock: the explored set is a function of (tree, tier, VERIF_SEED); thread sets whose state "
         "space is larger than the budget are explored breadth-first up to it and listed in `search_incomplete`; a wall-clock "
@@ -34,7 +35,9 @@ ASSUMPTIONS = ["threading.Lock semantics (acquire blocks while held, release by 
                "worker threads are real OS threads, one per logical thread (lib.dsched starts one `_thread` per worker), and "
                "the module under test sees the real `threading.current_thread` / `get_ident`: code that keys state by "
                "thread identity behaves as in production; the shim implements `Lock.acquire(blocking=False)` / a timeout "
-               "as 'returns False without waiting when the lock is held at that moment'",
+               "as 'returns False without waiting when the lock is held at that moment', `RLock` with owner + count "
+               "(release by a non-owner raises RuntimeError), `Semaphore` / `BoundedSemaphore` as counters; Condition, "
+               "Event, Barrier, Timer, Thread have no shim: constructing one is a harness error (BROKEN, never a PASS)",
                "in scope besides the rounds of the property: a reader that takes a second read hold while it has one, in "
                "thread sets WITHOUT writers (the counting light switch supports it; with a writer queued between the two "
                "acquires the unchanged class deadlocks by design — writer preference — so that use is outside the "
@@ -100,11 +103,120 @@ class ShimLock:
     def locked(self):
         return self.held
 
+    def would_block(self, i):
+        """would a blocking acquire by worker i wait now?"""
+        return self.held
+
     def __enter__(self):
         return self.acquire()
 
     def __exit__(self, *a):
         self.release()
+
+
+def _me():
+    """(run, worker index) of the caller — index None outside a scheduled run (then the caller is "direct")"""
+    run = ShimLock.run
+    i = run.sched.me() if run is not None and run.sched is not None and not run.direct else None
+    return run, i
+
+
+class ShimRLock(ShimLock):
+    """stand-in for threading.RLock: owner + count; a further acquire by the owner never waits; release by anybody but the
+    owner raises RuntimeError (CPython: "cannot release un-acquired lock")"""
+    __slots__ = ("owner", "count")
+
+    def __init__(self):
+        ShimLock.__init__(self)
+        self.owner, self.count = None, 0
+
+    def would_block(self, i):
+        return self.held and self.owner != i
+
+    def acquire(self, blocking=True, timeout=-1):
+        if not blocking and timeout != -1:
+            raise ValueError("can't specify a timeout for a non-blocking call")
+        trying = (not blocking) or (timeout is not None and timeout >= 0)
+        run, i = _me()
+        who = "direct" if i is None else i
+        if i is not None:
+            run.sched.yield_point(("t" if trying else "a", self))
+        if self.held and self.owner != who:
+            if trying:
+                if i is not None:
+                    run.ops[i] += 1
+                return False
+            if i is None:
+                raise WouldBlock(self.name)
+            raise HarnessError("worker %d resumed at acquire(%s) while another thread owns the lock" % (i, self.name))
+        self.held, self.owner, self.count = True, who, self.count + 1
+        if i is not None:
+            run.inside[i] = "R" if run.nested[i] else "-"
+            run.ops[i] += 1
+        return True
+
+    def release(self):
+        run, i = _me()
+        who = "direct" if i is None else i
+        if i is not None:
+            run.sched.yield_point(("r", self))
+            run.inside[i] = "R" if run.nested[i] else "-"
+            run.ops[i] += 1
+        if not self.held or self.owner != who:
+            raise RuntimeError("cannot release un-acquired lock")
+        self.count -= 1
+        if self.count == 0:
+            self.held, self.owner = False, None
+
+
+class ShimSemaphore(ShimLock):
+    """stand-in for threading.Semaphore / BoundedSemaphore: `held` = no permit left"""
+    __slots__ = ("value", "bound")
+
+    def __init__(self, value=1, bound=None):
+        ShimLock.__init__(self)
+        if value < 0:
+            raise ValueError("semaphore initial value must be >= 0")
+        self.value, self.bound = value, bound
+        self.held = value == 0
+
+    def acquire(self, blocking=True, timeout=None):
+        trying = (not blocking) or (timeout is not None and timeout >= 0)
+        run, i = _me()
+        if i is not None:
+            run.sched.yield_point(("t" if trying else "a", self))
+        if self.value == 0:
+            if trying:
+                if i is not None:
+                    run.ops[i] += 1
+                return False
+            if i is None:
+                raise WouldBlock(self.name)
+            raise HarnessError("worker %d resumed at acquire(%s) with no permit" % (i, self.name))
+        self.value -= 1
+        self.held = self.value == 0
+        if i is not None:
+            run.inside[i] = "R" if run.nested[i] else "-"
+            run.ops[i] += 1
+        return True
+
+    def release(self, n=1):
+        run, i = _me()
+        if i is not None:
+            run.sched.yield_point(("r", self))
+            run.inside[i] = "R" if run.nested[i] else "-"
+            run.ops[i] += 1
+        if self.bound is not None and self.value + n > self.bound:
+            raise ValueError("Semaphore released too many times")
+        self.value += n
+        self.held = False
+
+
+def _unsupported(name):
+    def make(*a, **k):
+        raise HarnessError("the module under test constructs threading.%s: no faithful shim for it — the schedules of "
+                           "this check do not cover the class any more" % name)
+    return make
 
 
 class ShimThreading:
@@ -124,6 +236,11 @@ def load_rwmod():
     shim = types.ModuleType("threading")
     shim.__dict__.update({k: v for k, v in vars(real).items() if not k.startswith("__")})
     shim.Lock = ShimLock
+    shim.RLock = ShimRLock
+    shim.Semaphore = ShimSemaphore
+    shim.BoundedSemaphore = lambda value=1: ShimSemaphore(value, bound=value)
+    for prim in ("Condition", "Event", "Barrier", "Timer", "Thread"):
+        setattr(shim, prim, _unsupported(prim))
     saved = sys.modules["threading"]
     sys.modules["threading"] = shim
     try:
@@ -319,7 +436,7 @@ class RealRun:
     def blocked(self, i):
         s = self.sched
         p = s.pending[i]
-        return (not s.done[i]) and p is not None and p[0] == "a" and p[1].held
+        return (not s.done[i]) and p is not None and p[0] == "a" and p[1].would_block(i)
 
     def enabled(self):
         return [i for i in range(len(self.spec)) if not self.sched.done[i] and not self.blocked(i)]
@@ -493,8 +610,9 @@ def covering_schedules(s0, graph, path, rng, limit=None):
 def specs(ctx):
     if ctx.quick:
         return [["r", "w"], ["r", "r", "w"], ["r", "w", "w"], ["r", "r", "w", "w"], ["r", "r", "r", "w"],
-                ["rw", "wr"], ["rr", "w"], ["r", "r", "r", "w", "w"]]
+                ["rw", "wr"], ["rr", "w"], ["rw", "r"], ["rw", "r", "r"], ["r", "r", "r", "w", "w"]]
     return [["r", "w"], ["r", "r", "w"], ["r", "w", "w"], ["r", "r", "w", "w"], ["r", "r", "r", "w"], ["rw", "wr"],
+            ["rw", "r"], ["rw", "r", "r"], ["wr", "rw", "r"],
             ["rr", "ww"], ["r", "r", "r", "w", "w"], ["rr", "r", "w", "w"], ["rw", "r", "w", "r"], ["rr", "rw", "wr"]]
 
 
